@@ -10,6 +10,7 @@ import (
 	"math/rand"
 	"os"
 	"strings"
+	"time"
 
 	"github.com/evolbioinfo/goalign/align"
 	"github.com/evolbioinfo/goalign/distance/dna"
@@ -364,6 +365,7 @@ func c20(args []string) error {
 			out := make([]float64, npts)
 			step := 1 + r.Intn(int(3*alpha.f()*16+64)/npts+1)
 			cur := 0
+			hung := 0
 			tiny := r.Intn(3) == 0 // a geometric lower tail first: the prefactor underflows there for large shapes
 			for k := range xs {
 				if tiny && k < 12 {
@@ -375,7 +377,21 @@ func c20(args []string) error {
 					xs[k] = dyadic{cur, 16}
 					cur += 1 + r.Intn(2*step)
 				}
-				out[k] = models.IncompleteGamma(xs[k].f(), alpha.f(), lg)
+				// the series / continued fraction terminate: a call that does not return within 5 s is recorded as -1,
+				// a value outside [0,1] that both oracles reject (the spinning goroutine is abandoned)
+				xk := xs[k].f()
+				done := make(chan float64, 1)
+				go func() { done <- models.IncompleteGamma(xk, alpha.f(), lg) }()
+				select {
+				case v := <-done:
+					out[k] = v
+				case <-time.After(5 * time.Second):
+					out[k] = -1
+					hung++
+				}
+				if hung > 2 {
+					break
+				}
 			}
 			w.add(fmt.Sprintf("mk 5 %d (1#1)%%Q %s false true %s %s", npts, qList([]dyadic{alpha}), flList(out), qList(xs)),
 				map[string]interface{}{"op": "IncompleteGamma", "alpha": alpha.f(), "xmax": xs[npts-1].f()})
